@@ -136,7 +136,7 @@ func Violation(t TB, c *stats.Collector, sig string, format string, args ...inte
 		collectMu.Lock()
 		if !collected[sig] {
 			collected[sig] = true
-			fmt.Printf("COLLECT %s :: %s\n", sig, fmt.Sprintf(format, args...))
+			fmt.Printf("COLLECT-BEGIN %s\n%s\nCOLLECT-END\n", sig, fmt.Sprintf(format, args...))
 		}
 		collectMu.Unlock()
 		panic(knownAbort{sig})
